@@ -284,6 +284,120 @@ pub fn run(ctx: &Ctx) -> Report {
             rep.violations += bad.len() as u64 - 3;
         }
     }
+    // pairs of characters: what is done to a character because of the one before it (joined,
+    // composed, swallowed) - every ordered pair over a grid of scalar values (every 0x80th below
+    // U+3400, every 0x1000th above - thorough 0x40 / 0x400 - and the characters known to
+    // interact: jamo, joiners, selectors, modifiers, marks, viramas, regional indicators, tags)
+    {
+        let t0 = Instant::now();
+        let (fine, coarse) = ctx.tier.pick((0x80u32, 0x1000u32), (0x40, 0x400));
+        let mut grid: Vec<u32> = (0xa0u32..0x3400).step_by(fine as usize).collect();
+        grid.extend((0x3400u32..0x110000).step_by(coarse as usize));
+        grid.extend([
+            0x61, 0x20, 0x1100, 0x1161, 0x11a8, 0xac00, 0xac01, 0x200d, 0x200c, 0x200b, 0xfe0f, 0xfe0e, 0xfe00, 0x1f3fb, 0x1f1e6, 0x1f1fa, 0x1f468, 0x2764, 0x301, 0x20e3, 0x94d,
+            0x915, 0xe33, 0xe01, 0x644, 0x627, 0x202e, 0x2066, 0xe0061, 0xe007f, 0x3099, 0x304b, 0xff9e, 0xff76, 0x1160, 0x115f, 0x34f, 0xad, 0x61c, 0x180e, 0xfeff, 0xfffd,
+        ]);
+        grid.retain(|c| char::from_u32(*c).is_some() && !(0x7f..0xa0).contains(c));
+        grid.sort();
+        grid.dedup();
+        let bad: Vec<(u32, u32, String)> = grid
+            .par_iter()
+            .filter_map(|&a| {
+                let ca = char::from_u32(a).unwrap();
+                for &b in &grid {
+                    let cb = char::from_u32(b).unwrap();
+                    let line: String = ['x', ca, cb, 'y', ca, cb, cb].iter().collect();
+                    for w in [3usize, 16] {
+                        let err = match guarded(|| check_one(&[line.clone()], w, 2, w == 3)) {
+                            Ok(Ok(_)) => None,
+                            Ok(Err(e)) => Some(e),
+                            Err(m) => Some(format!("panic: {}", m)),
+                        };
+                        if let Some(e) = err {
+                            return Some((a, b, e));
+                        }
+                    }
+                }
+                None
+            })
+            .collect();
+        let runs = (grid.len() * grid.len() * 2) as u64;
+        rep.transitions += runs;
+        rep.evaluations += runs;
+        rep.traces_validated += runs;
+        rep.distinct_nontrivial += runs;
+        rep.parts.push(json!({"part":"every-pair-over-a-grid-of-scalars","grid":grid.len(),"pairs":grid.len()*grid.len(),"runs":runs,"violating":bad.len(),"wall_s":t0.elapsed().as_secs_f64()}));
+        println!("part every-pair-over-a-grid-of-scalars: {} scalars, {} ordered pairs, {} violating first characters ({:.1}s)", grid.len(), grid.len() * grid.len(), bad.len(), t0.elapsed().as_secs_f64());
+        for (a, b, e) in bad.iter().take(3) {
+            let (ca, cb) = (char::from_u32(*a).unwrap(), char::from_u32(*b).unwrap());
+            let line: String = ['x', ca, cb, 'y', ca, cb, cb].iter().collect();
+            emit_violation(ctx, &mut rep, "C09", json!({"part":"every-pair-over-a-grid-of-scalars","lines":[line],"cols":3,"rows":2,"per_char": true,
+                "pair": [a, b], "oracle":"text-reproduced","observed":format!("U+{:04X} followed by U+{:04X}: {}", a, b, e)}));
+        }
+        if bad.len() > 3 {
+            rep.violations += bad.len() as u64 - 3;
+        }
+    }
+    // read while it grows: ONE terminal, a line per call, text() and the unwrapped lines()
+    // after EVERY call (a reader that looks more than once must see the same text as one
+    // that looks at the end) - up to 1400 (thorough 6000) lines of 1..36 characters
+    {
+        let t0 = Instant::now();
+        let n = ctx.tier.pick(1400usize, 6000usize);
+        let mut bad: Option<(usize, usize, String)> = None;
+        let sizes = [(10usize, 3usize), (7, 2), (20, 5)];
+        let res: Vec<Option<(usize, usize, String)>> = sizes
+            .par_iter()
+            .map(|&(w, h)| {
+                let r = guarded(|| {
+                    let mut vt = build_vt(w, h, None);
+                    let mut expected: Vec<String> = vec![];
+                    for i in 0..n {
+                        let len = 1 + (i * 7) % 36;
+                        let line: String = (0..len).map(|k| char::from_u32('a' as u32 + ((i + k) % 26) as u32).unwrap()).collect();
+                        let _ = vt.feed_str(&line);
+                        let _ = vt.feed_str("\r\n");
+                        expected.push(line);
+                        let got = strip(vt.text());
+                        if got != expected {
+                            let k = got.iter().zip(expected.iter()).position(|(a, b)| a != b).unwrap_or(got.len().min(expected.len()));
+                            return Some((i + 1, format!("after line {}: text() has {} lines, expected {}; first difference at line {}: {:?} vs {:?}", i + 1, got.len(), expected.len(), k, got.get(k), expected.get(k))));
+                        }
+                        if i % 16 == 0 || i + 1 == n {
+                            let mut u = TextUnwrapper::new();
+                            let mut un: Vec<String> = vt.lines().iter().filter_map(|l| u.push(l)).collect();
+                            un.extend(u.flush());
+                            let un = strip(un.into_iter().map(|s| s.trim_end().to_string()).collect());
+                            if un != expected {
+                                return Some((i + 1, format!("after line {}: TextUnwrapper over lines() has {} lines, expected {}", i + 1, un.len(), expected.len())));
+                            }
+                        }
+                    }
+                    None
+                });
+                match r {
+                    Ok(None) => None,
+                    Ok(Some((i, e))) => Some((w, i, e)),
+                    Err(p) => Some((w, 0, format!("panic: {}", p))),
+                }
+            })
+            .collect();
+        for r in res.into_iter().flatten() {
+            if bad.is_none() {
+                bad = Some(r);
+            }
+        }
+        let runs = (n * sizes.len()) as u64;
+        rep.transitions += runs;
+        rep.evaluations += runs;
+        rep.traces_validated += runs;
+        rep.distinct_nontrivial += runs;
+        rep.parts.push(json!({"part":"read-while-it-grows","lines":n,"sizes":"10x3, 7x2, 20x5","reads":runs,"violating": bad.is_some() as u32,"wall_s":t0.elapsed().as_secs_f64()}));
+        println!("part read-while-it-grows: {} reads of text() on growing terminals, {} violating ({:.1}s)", runs, bad.is_some() as u32, t0.elapsed().as_secs_f64());
+        if let Some((w, i, e)) = bad {
+            emit_violation(ctx, &mut rep, "C09", json!({"part":"read-while-it-grows","cols":w,"line":i,"oracle":"text-reproduced","observed":e}));
+        }
+    }
     // one very long line: "however many rows each line wraps over" - every length around the
     // powers of two up to 2^21 (thorough 2^23) characters, between two short lines
     {
@@ -428,7 +542,7 @@ pub fn run(ctx: &Ctx) -> Report {
 }
 
 pub fn replay(ctx: &Ctx, v: &Value) -> bool {
-    if v["part"] == "long-call-of-multibyte-characters" {
+    if v["part"] == "long-call-of-multibyte-characters" || v["part"] == "read-while-it-grows" {
         let c2 = Ctx { id: ctx.id.clone(), tier: Tier::Quick, seed: 0, start: ctx.start, known: ctx.known.clone(), replay_dir: format!("{}/again", ctx.replay_dir) };
         return run(&c2).violations > 0;
     }
